@@ -80,6 +80,10 @@ def make_pair(rng, r):
         sig = ref.herm(sig)
     if not cplx:
         rho, sig = rho.real, sig.real
+    elif cls == "generic" and r % 4 == 1:
+        # one state of real dtype, the other genuinely complex (each order occurs: the callers swap the arguments for the symmetry monitor)
+        rho = np.ascontiguousarray(gen.density(rng, d, rk(), False).real)
+        cls = "generic-real-vs-complex"
     return d, cplx, cls, rho, sig
 
 
